@@ -80,6 +80,7 @@ type harness struct {
 	injected  bool
 	firedStep int
 	firedAt   string
+	curKind   string
 	jobs      []obsJob
 	faults    int
 	kvs       []*kvStore // every Pebble kv store opened and not yet seen closing
@@ -151,7 +152,7 @@ func (h *harness) FSOp(d *simfs.Disk, op simfs.Op, path string, size int, index 
 		h.elig++
 		h.totalElig++
 		if h.hit() {
-			h.fireCrash(fmt.Sprintf("before %s %s (window %d event %d)", op, path, h.win, h.elig))
+			h.fireCrash(fmt.Sprintf("before %s %s during %s (window %d event %d)", op, path, h.curKind, h.win, h.elig))
 		}
 	case "ioerr":
 		if goid() != h.mainG {
@@ -172,7 +173,7 @@ func (h *harness) FSOp(d *simfs.Disk, op simfs.Op, path string, size int, index 
 			h.faults++
 			h.ctx.Count("fault.ioerr", 1)
 			h.ctx.Count("fault.ioerr."+op.String(), 1)
-			h.firedAt = fmt.Sprintf("I/O error at %s %s (window %d event %d)", op, path, h.win, h.elig)
+			h.firedAt = fmt.Sprintf("I/O error at %s %s during %s (window %d event %d)", op, path, h.curKind, h.win, h.elig)
 			h.ctx.Tracef("FAULT %s", h.firedAt)
 			if (op == simfs.OpWrite || op == simfs.OpCreate) && h.src.Chance(1, 4) {
 				return simfs.ErrNoSpace, 0
@@ -235,7 +236,7 @@ func (h *harness) kvCall(method string) (bool, bool) {
 	h.ctx.Count("fault.kverr", 1)
 	h.ctx.Count("fault.kverr."+method, 1)
 	applyFirst := method == "CommitWriteBatch" && h.src.Chance(1, 3)
-	h.firedAt = fmt.Sprintf("kv error at %s (window %d call %d, applied first: %t)", method, h.win, h.elig, applyFirst)
+	h.firedAt = fmt.Sprintf("kv error at %s during %s (window %d call %d, applied first: %t)", method, h.curKind, h.win, h.elig, applyFirst)
 	h.ctx.Tracef("FAULT %s", h.firedAt)
 	return true, applyFirst
 }
@@ -435,6 +436,7 @@ func (h *harness) window(op *wop) outcome {
 	h.mu.Lock()
 	h.win++
 	h.elig = 0
+	h.curKind = op.kind.String()
 	h.intra = true
 	h.unordered = false
 	if h.kind.isPebble() && op.kind == opCompact {
@@ -692,12 +694,16 @@ func (h *harness) afterFault(op *wop, out outcome, before, after map[raftio.Node
 	case h.crashed && h.firedStep > out.logical, h.injected && !out.failed():
 		// the logical step was acknowledged
 		if h.injected && h.firedStep == out.logical {
-			// ... although an error was injected into it: it must be durable
-			swallowed = true
-			touchedOracle = "error-swallowed"
+			// ... although an error was injected into it
 			h.ctx.Count("probe.error_not_surfaced", 1)
-			for id := range after {
-				cands[id] = []*RefReplica{after[id]}
+			switch op.kind {
+			case opSave, opSaveSnapshots, opBootstrap, opImport:
+				// a save that reports success must be durable
+				swallowed = true
+				touchedOracle = "error-swallowed"
+				for id := range after {
+					cands[id] = []*RefReplica{after[id]}
+				}
 			}
 		}
 		h.commit(op, after)
